@@ -15,6 +15,16 @@ package netpoll
 //@ ghost field linkBufferNode.own *UnsafeLinkBuffer
 //@ ghost field linkBufferNode.ord real
 //@ ghost field linkBufferNode.sp int
+//@ ghost field linkBufferNode.kids int
+//   kids(n)  number of live Slice/Refer children that hold a reference on n (refer == 1 + kids while n is chained)
+//@ ghost map pool int
+//   pool[a]  of the byte array with id a: 0 not a pool block (caller memory, dirtmake), 1 taken from mcache and
+//            not yet returned, 2 returned to mcache
+//@ ghost map blknode int
+//@ ghost map cacheown int
+//@ ghost map cacheidx int
+//   blknode[a]  the one managed node whose buf is block a (the node that will return it), 0 if none
+//   cacheown[a], cacheidx[a]  the buffer whose caches slice holds block a, and at which index (0: none)
 
 //@ pure nlen(n *linkBufferNode) int = len(n.buf) - n.off
 //@ pure inb(b *UnsafeLinkBuffer, n *linkBufferNode) bool = n != nil && n.own == b
@@ -38,8 +48,20 @@ package netpoll
 //@     && (n.ord > b.write.ord ==> n.malloc == len(n.buf))
 //@ pred wfpos(b *UnsafeLinkBuffer) = forall n *linkBufferNode ::
 //@     inb(b, n) && b.read.ord <= n.ord && n.ord < b.write.ord ==> n.next.sp + n.next.off == n.sp + n.malloc
-//@ pred wfs(b *UnsafeLinkBuffer) = wfcur(b) && wflin(b) && wfclosed(b) && wfuniq(b) && wfnode(b) && wfshape(b) && wfpos(b)
-//@     && len(b.cachePeek) >= 0 && len(b.cachePeek) <= cap(b.cachePeek)
+//@ pred wfref(b *UnsafeLinkBuffer) = forall n *linkBufferNode ::
+//@     inb(b, n) ==> n.origin == nil && n.kids >= 0 && n.refer == 1 + n.kids && (n.ord > b.flush.ord ==> n.kids == 0)
+// managed nodes hold a whole, live pool block (or a dirtmake array larger than mallocMax) and are its only holder
+//@ pred managedok(n *linkBufferNode) = n.buf#base == 0 && n.buf#arr != 0 && allocated(n.buf) && cap(n.buf) > 0 && blknode[n.buf#arr] == n
+//@     && (cap(n.buf) <= mallocMax ==> pool[n.buf#arr] == 1)
+//@ pred wfpool(b *UnsafeLinkBuffer) = forall n *linkBufferNode :: inb(b, n) && n.mode & 1 == 0 ==> managedok(n)
+//@ pred wfpeek(b *UnsafeLinkBuffer) = len(b.cachePeek) >= 0 && len(b.cachePeek) <= cap(b.cachePeek)
+//@     && (b.cachePeek != nil ==> b.cachePeek#base == 0 && allocated(b.cachePeek) && cap(b.cachePeek) > 0 && blknode[b.cachePeek#arr] == 0 && (cap(b.cachePeek) <= mallocMax ==> pool[b.cachePeek#arr] == 1))
+//@ pred cacheok(b *UnsafeLinkBuffer, i int) = b.caches[i]#base == 0 && b.caches[i]#arr != 0 && allocated(b.caches[i]) && cap(b.caches[i]) > 0
+//@     && cap(b.caches[i]) <= mallocMax && pool[b.caches[i]#arr] == 1 && blknode[b.caches[i]#arr] == 0 && cacheown[b.caches[i]#arr] == b && cacheidx[b.caches[i]#arr] == i
+//@ pred wfcaches(b *UnsafeLinkBuffer) = len(b.caches) >= 0 && (b.caches != nil ==> allocated(b.caches)) && (forall i int {b.caches[i]#arr}{b.caches[i]#base}{b.caches[i]#cap} :: 0 <= i && i < len(b.caches) ==> cacheok(b, i))
+//@     && (b.cachePeek != nil ==> cacheown[b.cachePeek#arr] == nil)
+//@ pred wfs(b *UnsafeLinkBuffer) = wfcaches(b) && wfcur(b) && wflin(b) && wfclosed(b) && wfuniq(b) && wfnode(b) && wfshape(b) && wfpos(b)
+//@     && wfref(b) && wfpool(b) && wfpeek(b)
 //@ pred wfcnt(b *UnsafeLinkBuffer, d int) = b.length == fpos(b) - rpos(b) - d && b.mallocSize == mpos(b) - fpos(b)
 //@ pred wf(b *UnsafeLinkBuffer) = wfs(b) && wfcnt(b, 0)
 
@@ -92,19 +114,29 @@ package netpoll
 //@ func malloc
 //@   trusted wraps mcache.Malloc (pool) and dirtmake.Bytes; the pool contract is assumed
 //@   requires 0 <= size && size <= capacity
-//@   ensures fresh(result) && result#arr != 0 && len(result) == size && cap(result) >= capacity && result#base == 0
-//@   ensures capacity > mallocMax ==> cap(result) == capacity
+//@   ensures fresh(result) && result#arr != 0 && len(result) == size && cap(result) >= capacity && cap(result) > 0 && result#base == 0
+//@   ensures capacity > mallocMax ==> cap(result) == capacity && pool[result#arr] == 0
+//@   ensures capacity <= mallocMax ==> cap(result) <= mallocMax && pool[result#arr] == 1
+//@   ensures blknode[result#arr] == 0 && cacheown[result#arr] == nil && samepool()
+//@   modifies pool, blknode, cacheown
 //@
 //@ func free
-//@   trusted wraps mcache.Free; the pool contract is assumed
+//@   trusted wraps mcache.Free; the pool contract is assumed: the block must be live, whole (base 0) and not yet returned
+//@   requires cap(buf) <= mallocMax ==> pool[buf#arr] == 1 && buf#base == 0 && cap(buf) > 0
+//@   ensures cap(buf) <= mallocMax ==> pool[buf#arr] == 2
+//@   ensures cap(buf) > mallocMax ==> pool[buf#arr] == old(pool[buf#arr])
+//@   ensures forall a int :: a != buf#arr ==> pool[a] == old(pool[a])
+//@   modifies pool
 
 //@ func newLinkBufferNode
 //@   property C01 C03
-//@   ensures fresh(result) && result != nil && result.off == 0 && result.malloc == 0 && result.refer == 1
+//@   ensures fresh(result) && result != nil && result.off == 0 && result.malloc == 0 && result.refer == 1 && result.kids == 0
 //@   ensures result.next == nil && result.origin == nil && result.own == nil && len(result.buf) == 0
-//@   ensures size <= 0 ==> result.mode == 1 && cap(result.buf) == 0
-//@   ensures size > 0 ==> result.mode == 0 && cap(result.buf) >= size && fresh(result.buf) && result.buf#base == 0
-//@   modifies nothing
+//@   ensures size <= 0 ==> result.mode == 1 && cap(result.buf) == 0 && result.buf == nil
+//@   ensures size > 0 ==> result.mode == 0 && cap(result.buf) >= size && fresh(result.buf) && managedok(result)
+//@   ensures samepool()
+//@   modifies pool, blknode, cacheown
+//@   ghost at return: if size > 0 then blknode[result.buf#arr] = result
 
 //@ func (*UnsafeLinkBuffer).Next
 //@   property C01 C02
@@ -114,7 +146,9 @@ package netpoll
 //@   ensures old(n > 0 && b.length >= n) ==> err == nil && len(p) == n && wf(b) && rpos(b) == old(rpos(b)) + n && b.length == old(b.length) - n
 //@   ensures old(n > 0 && b.length >= n) ==> fresh(p) || (p#arr == b.read.buf#arr && p#base == b.read.buf#base + b.read.off - n && b.read.mode & 2 != 0)
 //@   ensures forall m *linkBufferNode :: !inb(b, m) ==> m.off == old(m.off) && m.mode == old(m.mode)
-//@   modifies b.length, b.read, b.cachePeek, b.caches, linkBufferNode.off, linkBufferNode.mode, mem:[]byte
+//@   ensures forall a int :: a > 0 && wasalloc(a) ==> pool[a] == old(pool[a]) && blknode[a] == old(blknode[a]) && cacheown[a] == old(cacheown[a]) && cacheidx[a] == old(cacheidx[a])
+//@   modifies b.length, b.read, b.cachePeek, b.caches, linkBufferNode.off, linkBufferNode.mode, mem:[]byte, pool, blknode, cacheown, cacheidx
+//@   ghost after store caches#1: cacheown[p#arr] = b; cacheidx[p#arr] = len(b.caches) - 1
 //@   loop 1 invariant ack > 0 && pIdx >= 0 && pIdx + ack == n && len(p) == n && fresh(p) && wfs(b)
 //@   loop 1 invariant b.read.ord >= old(b.read.ord) && rpos(b) + ack == old(rpos(b)) + n && fpos(b) - rpos(b) >= ack
 //@   loop 1 invariant b.length == old(b.length) - n && b.mallocSize == old(b.mallocSize) && fpos(b) == old(fpos(b)) && mpos(b) == old(mpos(b))
@@ -128,8 +162,10 @@ package netpoll
 //@   ensures old(n > 0 && b.length >= n) ==> err == nil && len(p) == n && wf(b) && rpos(b) == old(rpos(b))
 //@   ensures old(n > 0 && b.length >= n) ==> p#arr == b.cachePeek#arr || (p#arr == b.read.buf#arr && p#base == b.read.buf#base + b.read.off && b.read.mode & 2 != 0)
 //@   ensures forall m *linkBufferNode :: !inb(b, m) ==> m.mode == old(m.mode)
-//@   modifies b.read, b.cachePeek, linkBufferNode.mode, mem
+//@   ensures forall a int :: a > 0 && wasalloc(a) && a != old(b.cachePeek#arr) ==> pool[a] == old(pool[a]) && blknode[a] == old(blknode[a]) && cacheown[a] == old(cacheown[a]) && cacheidx[a] == old(cacheidx[a])
+//@   modifies b.read, b.cachePeek, linkBufferNode.mode, mem, pool, blknode, cacheown, cacheidx
 //@   loop 1 invariant len(p) <= n && (scanned <= len(p) || len(p) == n) && 0 <= scanned && p#arr != 0 && len(p) <= cap(p) && n <= cap(p)
+//@   loop 1 invariant p#arr == b.cachePeek#arr && p#base == 0 && cap(p) == cap(b.cachePeek)
 //@   loop 1 invariant len(p) < n ==> inb(b, node) && node.ord >= b.read.ord && node.ord <= b.flush.ord && node.sp + node.off == rpos(b) + scanned
 
 //@ func (*UnsafeLinkBuffer).ReadByte
@@ -184,7 +220,9 @@ package netpoll
 // ends up owned by b or by nobody.
 //@ pred samenode(m *linkBufferNode) = m.off == old(m.off) && m.malloc == old(m.malloc) && m.mode == old(m.mode) && m.refer == old(m.refer)
 //@     && m.next == old(m.next) && m.origin == old(m.origin) && sameslice(m.buf, old(m.buf))
-//@     && m.own == old(m.own) && m.ord == old(m.ord) && m.sp == old(m.sp)
+//@     && m.own == old(m.own) && m.ord == old(m.ord) && m.sp == old(m.sp) && m.kids == old(m.kids)
+// pool blocks that existed before and are not touched by this operation keep their state and holder
+//@ pred samepool() = forall a int :: a > 0 && wasalloc(a) ==> pool[a] == old(pool[a]) && blknode[a] == old(blknode[a]) && cacheown[a] == old(cacheown[a]) && cacheidx[a] == old(cacheidx[a])
 //@ pred others(b *UnsafeLinkBuffer) = forall m *linkBufferNode ::
 //@     (wasalloc(m) && old(m.own) != b ==> samenode(m)) && (m != nil && m.own != old(m.own) ==> m.own == b || m.own == nil)
 
@@ -199,10 +237,11 @@ package netpoll
 //@   ensures wfs(b) && others(b) && b.write.ord >= old(b.write.ord) && mpos(b) == old(mpos(b)) && rpos(b) == old(rpos(b)) && fpos(b) == old(fpos(b))
 //@   ensures n > 0 ==> b.write.mode & 1 == 0 && cap(b.write.buf) - b.write.malloc >= n
 //@   ensures n <= 0 ==> b.write == old(b.write)
-//@   modifies b.write, linkBufferNode.next, linkBufferNode.own, linkBufferNode.ord, linkBufferNode.sp
+//@   ensures samepool()
+//@   modifies b.write, linkBufferNode.next, linkBufferNode.own, linkBufferNode.ord, linkBufferNode.sp, pool, blknode, cacheown, cacheidx
 //@   ghost after store next#1: attach(b, b.write, value)
 //@   ghost before store write#2: value.sp = b.write.sp + b.write.malloc - value.off
-//@   loop 1 invariant wfs(b) && others(b) && b.write.ord >= old(b.write.ord) && mpos(b) == old(mpos(b)) && rpos(b) == old(rpos(b)) && fpos(b) == old(fpos(b))
+//@   loop 1 invariant samepool() && wfs(b) && others(b) && b.write.ord >= old(b.write.ord) && mpos(b) == old(mpos(b)) && rpos(b) == old(rpos(b)) && fpos(b) == old(fpos(b))
 //@   loop 1 modifies b.write, linkBufferNode.sp
 
 //@ func (*UnsafeLinkBuffer).Malloc
@@ -212,7 +251,8 @@ package netpoll
 //@   ensures old(n > 0) ==> err == nil && len(buf) == n && wf(b) && others(b)
 //@   ensures old(n > 0) ==> b.mallocSize == old(b.mallocSize) + n && b.length == old(b.length) && rpos(b) == old(rpos(b)) && fpos(b) == old(fpos(b))
 //@   ensures old(n > 0) ==> buf#arr == b.write.buf#arr && buf#base == b.write.buf#base + b.write.malloc - n && b.write.mode & 1 == 0
-//@   modifies b.mallocSize, b.write, linkBufferNode.next, linkBufferNode.malloc, linkBufferNode.own, linkBufferNode.ord, linkBufferNode.sp
+//@   ensures samepool()
+//@   modifies b.mallocSize, b.write, linkBufferNode.next, linkBufferNode.malloc, linkBufferNode.own, linkBufferNode.ord, linkBufferNode.sp, pool, blknode, cacheown, cacheidx
 
 //@ func (*UnsafeLinkBuffer).MallocLen
 //@   property C01
@@ -227,7 +267,8 @@ package netpoll
 //@   loop 1 invariant ack >= 0 && ack <= n && (ack == 0 ==> n == 0 && b.write == b.flush && b.write.malloc == len(b.write.buf)) && inb(b, b.write) && b.flush.ord <= b.write.ord && b.write.ord <= old(b.write.ord)
 //@   loop 1 invariant b.write.sp + len(b.write.buf) - fpos(b) == n - ack
 //@   loop 2 invariant node == nil || (inb(b, node) && node.ord > b.write.ord)
-//@   loop 2 invariant forall m *linkBufferNode :: inb(b, m) && m.ord > b.write.ord && (node == nil || m.ord < node.ord) ==> m.malloc == m.off && len(m.buf) == m.off && cap(m.buf) >= m.off
+//@   loop 2 invariant forall m *linkBufferNode :: inb(b, m) && m.ord > b.write.ord && (node == nil || m.ord < node.ord) ==> m.malloc == m.off && len(m.buf) == m.off && cap(m.buf) >= m.off && m.refer == 1
+//@   loop 2 invariant forall m *linkBufferNode :: m.buf#arr == old(m.buf#arr) && m.buf#base == old(m.buf#base) && cap(m.buf) == old(cap(m.buf))
 //@   loop 2 invariant forall m *linkBufferNode :: !(inb(b, m) && m.ord > b.write.ord && (node == nil || m.ord < node.ord)) ==> (m.malloc == old(m.malloc) || m == b.write)
 //@   loop 2 invariant forall m *linkBufferNode :: !(inb(b, m) && m.ord > b.write.ord && (node == nil || m.ord < node.ord)) ==> sameslice(m.buf, old(m.buf)) && m.refer == old(m.refer)
 //@   loop 2 invariant forall m *linkBufferNode :: m == b.write ==> m.malloc <= old(m.malloc) && m.malloc >= len(m.buf)
@@ -238,9 +279,10 @@ package netpoll
 //@   requires wf(b)
 //@   ensures err == nil && wf(b) && others(b) && b.mallocSize == 0 && b.length == old(b.length) + old(b.mallocSize)
 //@   ensures rpos(b) == old(rpos(b)) && fpos(b) == old(mpos(b))
-//@   modifies b.mallocSize, b.write, b.flush, b.length, linkBufferNode.next, linkBufferNode.buf, linkBufferNode.own, linkBufferNode.ord, linkBufferNode.sp
+//@   ensures samepool()
+//@   modifies b.mallocSize, b.write, b.flush, b.length, linkBufferNode.next, linkBufferNode.buf, linkBufferNode.own, linkBufferNode.ord, linkBufferNode.sp, pool, blknode, cacheown, cacheidx
 //@   ghost after store next#1: attach(b, b.write, value)
-//@   loop 1 invariant wfcur(b) && wflin(b) && wfclosed(b) && wfuniq(b) && wfnode(b) && wfpos(b) && others(b) && b.flush == old(b.flush)
+//@   loop 1 invariant samepool() && wfref(b) && wfpool(b) && wfpeek(b) && wfcur(b) && wflin(b) && wfclosed(b) && wfuniq(b) && wfnode(b) && wfpos(b) && others(b) && b.flush == old(b.flush)
 //@   loop 1 invariant b.length == old(b.length) && rpos(b) == old(rpos(b)) && mpos(b) == old(mpos(b)) && n >= 0
 //@   loop 1 invariant node != b.write.next ==> inb(b, node) && b.flush.ord <= node.ord && node.ord <= b.write.ord && n == node.sp + len(node.buf) - old(fpos(b))
 //@   loop 1 invariant node == b.write.next ==> n == mpos(b) - old(fpos(b))
@@ -256,7 +298,8 @@ package netpoll
 //@   ensures old(len(p) > 0) ==> n == len(p) && err == nil && wf(b) && others(b) && b.mallocSize == old(b.mallocSize) + len(p) && b.length == old(b.length) && rpos(b) == old(rpos(b)) && fpos(b) == old(fpos(b))
 //@   ensures old(len(p) > 4096) ==> b.write.mode & 1 == 1 && b.write.buf#arr == p#arr && b.write.buf#base == p#base
 //@   ensures old(len(p) > 0 && len(p) <= 4096) ==> b.write.mode & 1 == 0
-//@   modifies b.mallocSize, b.write, linkBufferNode.next, linkBufferNode.malloc, linkBufferNode.buf, linkBufferNode.own, linkBufferNode.ord, linkBufferNode.sp, mem
+//@   ensures samepool()
+//@   modifies b.mallocSize, b.write, linkBufferNode.next, linkBufferNode.malloc, linkBufferNode.buf, linkBufferNode.own, linkBufferNode.ord, linkBufferNode.sp, mem, pool, blknode, cacheown, cacheidx
 //@   ghost after store next#1: attach(b, b.write, value)
 
 //@ func (*UnsafeLinkBuffer).WriteString
@@ -264,13 +307,15 @@ package netpoll
 //@   requires wf(b)
 //@   ensures old(len(s) == 0) ==> n == 0 && err == nil && unchanged(UnsafeLinkBuffer.mallocSize, UnsafeLinkBuffer.write, linkBufferNode.malloc, linkBufferNode.next, linkBufferNode.buf)
 //@   ensures old(len(s) > 0) ==> n == len(s) && err == nil && wf(b) && others(b) && b.mallocSize == old(b.mallocSize) + len(s) && b.length == old(b.length) && rpos(b) == old(rpos(b)) && fpos(b) == old(fpos(b))
-//@   modifies b.mallocSize, b.write, linkBufferNode.next, linkBufferNode.malloc, linkBufferNode.buf, linkBufferNode.own, linkBufferNode.ord, linkBufferNode.sp, mem
+//@   ensures samepool()
+//@   modifies b.mallocSize, b.write, linkBufferNode.next, linkBufferNode.malloc, linkBufferNode.buf, linkBufferNode.own, linkBufferNode.ord, linkBufferNode.sp, mem, pool, blknode, cacheown, cacheidx
 
 //@ func (*UnsafeLinkBuffer).WriteByte
 //@   property C01
 //@   requires wf(b)
 //@   ensures err == nil && wf(b) && others(b) && b.mallocSize == old(b.mallocSize) + 1 && b.length == old(b.length) && rpos(b) == old(rpos(b)) && fpos(b) == old(fpos(b))
-//@   modifies b.mallocSize, b.write, linkBufferNode.next, linkBufferNode.malloc, linkBufferNode.own, linkBufferNode.ord, linkBufferNode.sp, mem
+//@   ensures samepool()
+//@   modifies b.mallocSize, b.write, linkBufferNode.next, linkBufferNode.malloc, linkBufferNode.own, linkBufferNode.ord, linkBufferNode.sp, mem, pool, blknode, cacheown, cacheidx
 
 // ---- the book/ack pair the poller uses on the input buffer ----
 // nopend: nothing pending, and no caller-memory node with spare capacity (true of a connection's input
@@ -288,7 +333,8 @@ package netpoll
 //@   requires wf(b) && nopend(b) && bookSize >= 1 && maxSize >= 1
 //@   ensures booked(b, len(p)) && others(b) && len(p) >= 1 && len(p) <= bookSize && b.length == old(b.length) && rpos(b) == old(rpos(b)) && fpos(b) == old(fpos(b))
 //@   ensures p#arr == b.write.buf#arr && p#base == b.write.buf#base + len(b.write.buf) && b.write.mode & 1 == 0
-//@   modifies b.write, linkBufferNode.next, linkBufferNode.malloc, linkBufferNode.own, linkBufferNode.ord, linkBufferNode.sp
+//@   ensures samepool()
+//@   modifies b.write, linkBufferNode.next, linkBufferNode.malloc, linkBufferNode.own, linkBufferNode.ord, linkBufferNode.sp, pool, blknode, cacheown, cacheidx
 //@   ghost after store next#1: attach(b, b.write, value)
 
 //@ func (*UnsafeLinkBuffer).bookAck
@@ -302,7 +348,8 @@ package netpoll
 //@   property C04
 //@   requires wf(b) && nopend(b)
 //@   ensures wf(b) && nopend(b) && others(b) && b.length == old(b.length) && rpos(b) == old(rpos(b)) && fpos(b) == old(fpos(b))
-//@   modifies b.write, b.flush, linkBufferNode.next, linkBufferNode.own, linkBufferNode.ord, linkBufferNode.sp
+//@   ensures samepool()
+//@   modifies b.write, b.flush, linkBufferNode.next, linkBufferNode.own, linkBufferNode.ord, linkBufferNode.sp, pool, blknode, cacheown, cacheidx
 //@   ghost after store next#1: attach(b, b.write, value)
 
 //@ func (*UnsafeLinkBuffer).calcMaxSize
